@@ -220,7 +220,10 @@ def judge(ctx, case):
     # ---- parity ----------------------------------------------------------
     if not overlap and not ident:
         pts = rg.distinct_crossing_points([c for v in cross.values() for c in v], 1e-9)
-        interior_only = all(0 < float(c["t"]) < 1 and 0 < float(c["u"]) < 1 for v in cross.values() for c in v)
+        # (float data: a crossing within the library's own end tolerance 1e-6 of
+        # a segment end is an end contact, decided by rounding)
+        em = 0.0 if exact else 2e-6
+        interior_only = all(em < float(c["t"]) < 1 - em and em < float(c["u"]) < 1 - em for v in cross.values() for c in v)
         if interior_only and len(pts) % 2 == 1:
             # transversal crossings of two closed curves come in pairs: the
             # reference itself must agree, otherwise the case is degenerate
@@ -231,7 +234,7 @@ def judge(ctx, case):
                 # float data: an entry exactly at a segment end is a contact
                 # created by rounding (e.g. of an in-place rotation) that the
                 # reference, with its own rounding, does not have
-                reported = [t for t in reported if 0 < float(t[2]) < 1 and 0 < float(t[3]) < 1]
+                reported = [t for t in reported if em < float(t[2]) < 1 - em and em < float(t[3]) < 1 - em]
             if len(reported) % 2 == 1:
                 ctx.violation("parity", "odd-number-of-crossings", case, repr(reported), where)
     # ---- symmetry ------------------------------------------------------------
